@@ -291,6 +291,9 @@ func (ob *Obligation) Script(getModel bool) string {
 
 // ModelValues maps the keys of modelItems to the values of a (get-value ...) answer.
 func (ob *Obligation) ModelValues(out string) map[string]string {
+	if ob.x == nil {
+		return map[string]string{"witness": strings.TrimSpace(out)}
+	}
 	x := ob.x
 	x.mu.Lock()
 	items := x.modelItems()
@@ -604,6 +607,9 @@ var fileMu sync.Mutex
 
 // Solve decides one obligation. Phase 1: z3 5.1.0 alone with a short limit; phase 2: race of all three.
 func (ob *Obligation) Solve(timeoutS int, keepScript bool) *SolveResult {
+	if ob.RawErr != "" {
+		return &SolveResult{Status: "error", Output: ob.RawErr}
+	}
 	if ob.Trivial && !ob.Cover {
 		return &SolveResult{Status: "unsat", Solver: "simplifier", Seconds: 0}
 	}
@@ -611,7 +617,10 @@ func (ob *Obligation) Solve(timeoutS int, keepScript bool) *SolveResult {
 		// not(goal) is false: the covered condition is unreachable
 		return &SolveResult{Status: "unsat", Solver: "simplifier"}
 	}
-	script := ob.Script(true)
+	script := ob.RawScript
+	if script == "" {
+		script = ob.Script(true)
+	}
 	if ob.Cover && timeoutS > 3 {
 		timeoutS = 3
 	}
